@@ -484,7 +484,14 @@ pub fn run_program(c: &Case) -> Verdict {
                 let k5 = kind % 5;
                 let (pre, pim) = gen_slots(m, p2((seed % 3) as i64) * 0.9, seed);
                 // quantised plaintext values (what the encoder + to_znx produce, up to N/2 * 2^-ptld)
-                let (cre, cim) = (pre[0], if seed & 1 == 0 { Some(pim[0]) } else { None });
+                // constant forms: (re, im), re only, im only, neither
+                let (cre_o, cim): (Option<f64>, Option<f64>) = match (seed >> 3) % 4 {
+                    0 => (Some(pre[0]), Some(pim[0])),
+                    1 => (Some(pre[0]), None),
+                    2 => (None, Some(pim[0])),
+                    _ => (None, None),
+                };
+                let cre = cre_o.unwrap_or(0.0);
                 let mut res_sh: Option<Shadow> = None;
                 let qerr = nf * p2(-(ptld as i64));
                 match k5 {
@@ -542,7 +549,7 @@ pub fn run_program(c: &Case) -> Verdict {
                 }
                 let mut rnx = CKKSPlaintextVecRnx::<f64>::alloc(n).unwrap();
                 cx.encoder.encode_reim(&mut rnx, &pre, &pim).unwrap();
-                let cst = CKKSPlaintextCstRnx::<f64>::new(Some(cre), cim);
+                let cst = CKKSPlaintextCstRnx::<f64>::new(cre_o, cim);
                 if assign {
                     let me = regs[a as usize % 4].as_mut().unwrap();
                     let before = me.ct.meta();
